@@ -30,5 +30,5 @@ prop("C15", ["T-CMPXFORM", "T-FLAGS-DIRTY", "T-LABEL-KILL"])
 import rules_flow  # noqa
 import rules_mir  # noqa
 prop("C01", ["T-PREC", "T-BRANCH", "T-CMPXFORM", "T-STACK-PAIR", "T-FLAGS-DIRTY", "T-FLAGS-VALUE", "T-LABEL-KILL"])
-prop("C13", ["T-ASM-MODE", "T-LABEL-UNIQUE", "T-LABEL-DEF", "T-INLINE-LABELS", "T-HANDBUILT"])
+prop("C13", ["T-ASM-MODE", "T-LABEL-UNIQUE", "T-LABEL-DEF", "T-CONTINUE-FLAG", "T-INLINE-LABELS", "T-HANDBUILT"])
 prop("C17", ["T-ASM-PORT", "T-RMW-GUARD"])
